@@ -47,7 +47,7 @@ func init() {
 func exactFit(c *Ctx, scope map[string]bool, floor int) {
 	const rule = "exact-fit"
 	p, r := c.P, c.R
-	w := prove.NewWorld(p)
+	var w *prove.World
 	n := 0
 	for _, fn := range p.SrcFuncs() {
 		rp := relPkg(p, fn)
@@ -62,6 +62,9 @@ func exactFit(c *Ctx, scope map[string]bool, floor int) {
 		}
 		if len(params) == 0 {
 			continue
+		}
+		if w == nil {
+			w = sharedWorld(p)
 		}
 		fi := w.Info(fn)
 		ord := map[string]int{}
